@@ -18,7 +18,7 @@ AlignsGap == {4, 16, 64}
 ModesStd == {0, 1, 2, 3}
 TidsStd == {0, 32, 35, 37, 100, 101}
 TidsFew == {35, 33}
-CountsStd == {W(0), W(1), W(3), Huge32, Huge63, HugeMax}
+CountsStd == {W(0), W(1), W(3), Huge32, HugeMax}
 CountsFew == {W(1), W(2)}
 PoolsStd == {<<0, <<>>>>, <<1, <<5>>>>, <<4, <<1, 2, 3, 4>>>>, <<8, <<1, 2, 3, 4, 5, 6, 7, 8, 8, 7, 6, 5, 4, 3, 2, 1>>>>}
 LabelSizesStd == {0, 1, 2, 3, 4, 8, 16}
@@ -26,6 +26,20 @@ LabelSizesFew == {0, 1}
 OffsetsStd == {0, 1, 3, 5, 9000}
 SecKindsStd == {"dyn", "fix", "res"}
 ReserveStd == {4, 24}
+None == {}
+DatasAlign == {<<7>>, <<1, 2, 3>>, <<1, 2, 3, 4, 5, 6, 7, 8, 9, 10, 11>>}
+AlignsAlign == {2, 16, 64, 48}
+ModesAlign == {0, 1, 2}
+OffsetsAlign == {0, 1, 6}
+ReserveAlign == {8, 40}
+DatasLabel == {<<7>>, <<1, 2, 3, 4, 5>>}
+AlignsLabel == {8}
+ModesLabel == {0}
+PoolsLabel == {<<0, <<>>>>, <<4, <<1, 2, 3, 4>>>>, <<8, <<1, 2, 3, 4, 5, 6, 7, 8, 8, 7, 6, 5, 4, 3, 2, 1>>>>}
+LabelSizesLabel == {0, 1, 3}
+OffsetsLabel == {0, 2}
+ReserveLabel == {6, 300}
+DatasBig == {<<7>>} \cup {[i \in 1 .. 130 |-> i]}
 
 ASSUME PrintT(<<"NOPTAB", NopTab, A64Nop>>)
 =============================================================================
